@@ -34,8 +34,8 @@ def prec(p, assoc='Left'): return Adt('Precedence', None, [F64(3, z3.RealVal(p))
 def builtin_obj(struct_adt, p=0.0): return Adt('Obj', 'Func', [Adt('Func', 'Builtin', [RcV(RcObj(struct_adt))]), prec(p)])
 def stub(name): return Adt('StubBuiltin', None, [name])
 
-PRECS = {'+': 5.0, '-': 5.0, '*': 6.0, '<': 2.0, '>': 2.0, '<=': 2.0, '>=': 2.0, '==': 2.0, '!=': 2.0, '++': 4.0, 'append': 0.0, 'to': 4.0, 'til': 4.0}
-REAL = {'+': 'Plus', '-': 'Minus', '*': 'Times', 'append': 'Append', 'prepend': 'Prepend'}
+PRECS = {'+': 5.0, '-': 5.0, '*': 6.0, '/': 6.0, '<': 2.0, '>': 2.0, '<=': 2.0, '>=': 2.0, '==': 2.0, '!=': 2.0, '++': 4.0, 'append': 0.0, 'to': 4.0, 'til': 4.0}
+REAL = {'+': 'Plus', '-': 'Minus', '*': 'Times', '/': 'Divide', 'append': 'Append', 'prepend': 'Prepend'}
 def top_env(bindings, builtins=('+', '-', '*', '<', '>', '<=', '>=', '==', '!=', 'print')):
     """a top-level Env: {name: value} for the program's free variables plus the named builtins"""
     from mirsym.hashmap import hm
